@@ -32,7 +32,29 @@ func init() { register("node", nodeMain) }
 
 var nodeFamilyStart = time.Date(2022, 3, 1, 11, 0, 0, 0, time.UTC).UnixMilli()
 
+// gatedFamily lets the driver run steps of OTHER goroutines of a node (the flush job) inside one round of
+// the local replicator: before family.WriteRows (after ValidateSequence) and after it (before the deferred
+// CommitSequence).  Everything else is the real family.
+type gatedFamily struct {
+	tsdb.DataFamily
+	before, after func()
+}
+
+func (g *gatedFamily) WriteRows(rows []*metric.StorageRow) error {
+	if f := g.before; f != nil {
+		g.before = nil
+		f()
+	}
+	err := g.DataFamily.WriteRows(rows)
+	if f := g.after; f != nil {
+		g.after = nil
+		f()
+	}
+	return err
+}
+
 type node struct {
+	gate   *gatedFamily
 	dir    string
 	engine tsdb.Engine
 	db     tsdb.Database
@@ -71,7 +93,8 @@ func openNode(dir string) (*node, error) {
 	if err != nil {
 		return nil, err
 	}
-	n.part = replica.NewPartition(context.Background(), n.shard, n.family, 1, n.log, nil, fakeStateMgr{})
+	n.gate = &gatedFamily{DataFamily: n.family}
+	n.part = replica.NewPartition(context.Background(), n.shard, n.gate, 1, n.log, nil, fakeStateMgr{})
 	if err := n.part.BuildReplicaForLeader(1, []models.NodeID{1}); err != nil {
 		return nil, err
 	}
@@ -220,6 +243,49 @@ func (r *nodeRun) replicaStep() bool {
 	return true
 }
 
+// replicaRoundWithFlush: one round of the replicator with the flush job of the engine running inside it,
+// either between ValidateSequence and WriteRows or between WriteRows and CommitSequence
+func (r *nodeRun) replicaRoundWithFlush(afterWrite bool, job func()) bool {
+	g, _ := r.n.log.GetOrCreateConsumerGroup("1")
+	if g.Pending() <= 0 {
+		return false
+	}
+	seq := int(g.ConsumedSeq()) + 1
+	wrote := false
+	r.rec.Emit("RBegin", trace.F{})
+	if afterWrite {
+		r.n.gate.after = func() {
+			wrote = true
+			r.rec.Emit("RWrite", trace.F{})
+			job()
+		}
+	} else {
+		r.n.gate.before = func() { job() }
+		r.n.gate.after = func() {
+			wrote = true
+			r.rec.Emit("RWrite", trace.F{})
+		}
+	}
+	replica.VerifReplicaRound(r.n.part, 1)
+	r.n.gate.before, r.n.gate.after = nil, nil
+	if !wrote {
+		// the entry was rejected by ValidateSequence: nothing written, the job did not run
+		r.rec.Emit("RWrite", trace.F{})
+	}
+	r.rec.Emit("RCommit", trace.F{})
+	if seq >= 0 && seq < len(r.names) {
+		for i := 0; i < 100; i++ {
+			if _, err := r.n.db.MetaDB().GetMetricID("default-ns", r.names[seq]); err == nil {
+				break
+			}
+			time.Sleep(time.Millisecond)
+		}
+	}
+	r.rec.Emit("Proj", r.n.proj(r.names))
+	r.snapshot("after-RCommit")
+	return true
+}
+
 func (r *nodeRun) metaFlush() {
 	r.step("MetaFlush", trace.F{}, func() {
 		if err := r.n.db.FlushMeta(); err != nil {
@@ -318,9 +384,19 @@ func nodeHistory(rec *trace.Recorder, dir string, rng *rand.Rand, h int, image b
 			})
 			run.names = append(run.names, name)
 			script = append(script, "append:"+name)
-		case c < 65:
+		case c < 55:
 			if run.replicaStep() {
 				script = append(script, "replica")
+			}
+		case c < 65:
+			// the flush job falls INSIDE a round of the replicator (different goroutines in a node)
+			afterWrite := rng.Intn(2) == 0
+			if run.replicaRoundWithFlush(afterWrite, func() {
+				run.metaFlush()
+				run.indexFlush()
+				run.familyFlush(w)
+			}) {
+				script = append(script, fmt.Sprintf("replica-with-flush(afterWrite=%v)", afterWrite))
 			}
 		case c < 90:
 			// the flush job of the engine: metadata, index, family data -- with replication racing
